@@ -389,6 +389,9 @@ func (env *SpecEnv) eval(e ast.Expr) TV {
 		if tv, ok := env.vars[x.Name]; ok {
 			return tv
 		}
+		if strings.HasPrefix(x.Name, "ghost_") {
+			return env.ghostGlobal(strings.TrimPrefix(x.Name, "ghost_"))
+		}
 		if env.pkg != nil {
 			if o := env.pkg.Scope().Lookup(x.Name); o != nil {
 				return env.objValue(o)
@@ -572,6 +575,17 @@ func (env *SpecEnv) ghostField(base TV, name string) TV {
 	}
 	h := env.st.heapGet(tn+".$"+name, SArr(SInt, srt))
 	return TV{Scalar{Select(h, ptrTerm(p))}, gt}
+}
+
+func (env *SpecEnv) ghostGlobal(name string) TV {
+	kind := env.ex.Specs.GhostVars[name]
+	srt := SInt
+	var gt types.Type = types.Typ[types.Int]
+	if kind == "bool" {
+		srt, gt = SBool, types.Typ[types.Bool]
+	}
+	h := env.st.heapGet("G:$"+name, SArr(SInt, srt))
+	return TV{Scalar{Select(h, Zero)}, gt}
 }
 
 func isNilTV(tv TV) bool { return tv.V == nil && tv.T == nil }
@@ -989,6 +1003,12 @@ func (ex *Exec) evalPureFn(st *State, fn *ssa.Function, args []Value) Value {
 	if m, ok := models[fn.String()]; ok {
 		fr := &Frame{Fn: fn, Regs: map[ssa.Value]Value{}}
 		return m(ex, st, fr, fn, args, token.NoPos)
+	}
+	if !ex.inRepo(fn) {
+		fr := &Frame{Fn: fn, Regs: map[ssa.Value]Value{}}
+		if res, ok := ex.modelByPattern(st, fr, fn, fn.String(), args, token.NoPos); ok {
+			return res
+		}
 	}
 	if fn.Blocks == nil {
 		fr := &Frame{Fn: fn, Regs: map[ssa.Value]Value{}}
